@@ -17,3 +17,17 @@ LEVEL_NOTE = {
 TECHNIQUE = {
     "C14": "deterministic simulation: SimFS crash-point enumeration + seeded I/O-fault and restart histories",
 }
+
+_CHAIN_NOTE = ("Trusted: numpy/scipy dense algebra; BasisSet.op_mat / sigmaqn as definitions of local matrices and charges; the harness's own "
+               "dense contraction of site tensors (simlab/ref/dense.py).  Inputs are sampled (strength of seeded random testing); the simulation "
+               "dimension is the session history: population sharing models, gauge moves by other holders between steps, RNG position, GC events.")
+LEVEL_TEXT.update({
+    "C03": "Seeded sessions over a population of states/operators/density operators: every arithmetic result is compared with dense algebra on the shadows (1e-9 relative to operand norms), after arbitrary gauge histories of the operands, and is then canonicalised and losslessly compressed on a scratch copy (deferred oracle that exposes wrong bond labels). Exploration: samples histories, not exhaustive.",
+    "C04": "Seeded gauge histories: canonicalise(stop_idx)/ensure_*/lossless compress (incl. idempotence and via config) on objects produced by arithmetic; represented value unchanged to 1e-9, isometry of every swept site recomputed from tensors to 1e-10 (operators: orthogonal columns, see DESIGN), no bond growth, physical-dimension cap after two opposite sweeps.",
+    "C05": "Truncating compress (five ways of giving the limit) on canonical states drawn from session histories, judged against dense SVD spectra at every cut: bond <= limit, norm non-increase, max_k tail_k <= err <= sqrt(sum tail_k^2), first-bond singular values equal dense ones. Theorem-based bounds, so no calibration constants.",
+    "C06": "Monitor attached to every step of the chain sessions: dense weight outside the declared sector is zero, operators change the charge by exactly their declared total, and the stored bond labels describe the non-zero blocks of every site tensor of every created/changed object.",
+    "C13": "After EVERY step of a session the represented value (tensors x prefactor) of every live object that the step was not documented to change is recomputed and compared with its shadow; in-place mutations (site write, scale inplace, spill) must change exactly their target; drop+gc events are scheduled steps.",
+})
+for _p in ("C03", "C04", "C05", "C06", "C13"):
+    LEVEL_NOTE[_p] = _CHAIN_NOTE
+    TECHNIQUE[_p] = "deterministic simulation of API-call histories on a shared object population with dense reference model (seeded schedule search, ddmin replay)"
